@@ -328,11 +328,21 @@ pub fn map_ladder<D: Distance>(spec: &HistorySpec, st: &mut CaseStats) -> Result
         // write what fits, commit it
         let mut wtxn = tenv.env.write_txn().map_err(|e| Fail::Infra(format!("{e}")))?;
         let mut full = false;
-        for op in &spec.rounds[0].ops {
+        // every other ladder fills the map through append_item, in ascending id order (the database is empty and
+        // holds one index: every such append "sorts after every key", so it must behave exactly like add_item -
+        // including when the map is full)
+        let by_append = spec.rounds[0].qseed % 2 == 1;
+        let mut fill: Vec<&Op> = spec.rounds[0].ops.iter().filter(|op| matches!(op, Op::Add { .. })).collect();
+        if by_append {
+            fill.sort_by_key(|op| if let Op::Add { slot, .. } = op { isp.id_of(*slot) } else { 0 });
+            fill.dedup_by_key(|op| if let Op::Add { slot, .. } = op { isp.id_of(*slot) } else { 0 });
+            st.bump("ladder_filled_by_append");
+        }
+        for op in fill {
             if let Op::Add { slot, vseed, .. } = op {
                 let id = isp.id_of(*slot);
                 let v = crate::values::vector(isp.class, *vseed, isp.dims);
-                match catch(|| w.add_item(&mut wtxn, id, &v)) {
+                match catch(|| if by_append { w.append_item(&mut wtxn, id, &v) } else { w.add_item(&mut wtxn, id, &v) }) {
                     Ok(Ok(())) => {
                         model.items.insert(id, v);
                     }
@@ -340,8 +350,10 @@ pub fn map_ladder<D: Distance>(spec: &HistorySpec, st: &mut CaseStats) -> Result
                         full = true;
                         break;
                     }
-                    Ok(Err(e)) => return violation("mapfull:wrong-error", format!("add_item in a {size}-byte map failed with {e:?}")),
-                    Err(p) => return violation("mapfull:panic", format!("add_item panicked in a {size}-byte map: {}", p.message)),
+                    Ok(Err(e)) => {
+                        return violation("mapfull:wrong-error", format!("{} in a {size}-byte map failed with {e:?}", if by_append { "append_item (ascending ids, empty database)" } else { "add_item" }))
+                    }
+                    Err(p) => return violation("mapfull:panic", format!("{} panicked in a {size}-byte map: {}", if by_append { "append_item" } else { "add_item" }, p.message)),
                 }
             }
         }
